@@ -576,11 +576,32 @@ func init() {
 		Run: func(c *rt.Ctx) {
 			r := c.RNG(0)
 			types := []reflect.Type{reflect.TypeOf(zoo.QOuter{}), reflect.TypeOf(zoo.QInner{}), reflect.TypeOf(zoo.QLeaf{})}
-			for k := 0; k < 16; k++ {
+			for k := 0; k < 18; k++ {
 				o := qvalue(r, 2)
 				var v any = *o
 				t := types[0]
-				switch k % 5 {
+				switch k % 6 {
+				case 5:
+					// tag options: every nil-able member is nil or empty with probability 1/2
+					q := &zoo.QTagged{N: r.Intn(50), In: o.In, Z: 1, Sk: 9}
+					if r.Intn(2) == 0 {
+						q.A, q.S = 1+r.Intn(9), "s"
+						q.P = &zoo.QLeaf{P: 1, Q: "q"}
+						q.I = zoo.QLeaf{P: 2}
+						q.M, q.L = map[string]int{"k": 1}, []int{1}
+						n := 5
+						q.PI = &n
+					}
+					if r.Intn(2) == 0 {
+						q.PP = &zoo.QTagged{Z: 2}
+					}
+					if r.Intn(3) == 0 {
+						q.I = (*zoo.QLeaf)(nil)
+					}
+					v, t = *q, reflect.TypeOf(*q)
+					if r.Intn(2) == 0 {
+						v, t = q, reflect.TypeOf(q)
+					}
 				case 1:
 					v, t = o, reflect.TypeOf(o)
 				case 2:
